@@ -312,6 +312,11 @@ class Engine(ExecutorMixin):
             self._fire(sess, table, 'before', 'insert', None, new)
         auto = table.auto_col
         generated = None
+        # NOT NULL is checked after BEFORE triggers and before the storage engine allocates an AUTO_INCREMENT
+        # value (so a 1048 does not burn an id, a duplicate key does).
+        for col in table.cols:
+            if col.notnull and new[col.name] is None and col.name != auto:
+                raise cond(1048, f"Column '{col.name}' cannot be null")
         if auto is not None:
             v = new[auto]
             if v is None or v == 0:
@@ -320,9 +325,6 @@ class Engine(ExecutorMixin):
                 table.auto_next = generated + 1
             elif v >= table.auto_next:
                 table.auto_next = v + 1
-        for col in table.cols:
-            if col.notnull and new[col.name] is None:
-                raise cond(1048, f"Column '{col.name}' cannot be null")
         conflict = self.find_conflict(table, new)
         if conflict is not None:
             kname, cols, crow = conflict
